@@ -940,6 +940,8 @@ func StrIndexOf(s, sub, from *Term) *Term {
 				}
 			} else if p.Op == "app" && ufFreeOf(p.S, sub.S[0]) {
 				// cannot contain the character
+			} else if p.Op == "var" && strings.Contains(p.S, "!alnum") && !isAlnum(sub.S[0]) {
+				// variables labelled alphanumeric (salts) cannot contain it either
 			} else {
 				all = false
 				break
@@ -960,6 +962,10 @@ func alphabetOfChar(s *Term) string {
 		return ufAlphabet[s.Args[0].S]
 	}
 	return ""
+}
+
+func isAlnum(c byte) bool {
+	return c >= '0' && c <= '9' || c >= 'a' && c <= 'z' || c >= 'A' && c <= 'Z'
 }
 
 // ufAlphabet: uninterpreted functions whose results range over a known alphabet (the matching
